@@ -6,6 +6,10 @@ note = sys.argv[4] if len(sys.argv) > 4 else ""
 d = f"/verif/seeded/{name}"
 os.makedirs(d + "/demo", exist_ok=True)
 shutil.copy(wt + "/mutation/patch.diff", d + "/patch.diff")
+os.makedirs(wt + "/mutation/demo", exist_ok=True)
+for f in os.listdir(wt + "/tests"):
+    if f.startswith("seeded_demo"):
+        shutil.copy(os.path.join(wt, "tests", f), wt + "/mutation/demo/" + f)
 for f in os.listdir(wt + "/mutation/demo"):
     shutil.copy(os.path.join(wt, "mutation/demo", f), d + "/demo/" + f)
 meta = {}
@@ -18,8 +22,8 @@ out = {
     "property": meta.get("property", name.split("_")[0]),
     "origin": "fresh sub-agent given only the property text and a scratch worktree of /repo",
     "summary": meta.get("summary"),
-    "needs_to_manifest": meta.get("needs_to_manifest"),
-    "files_changed": meta.get("files_changed"),
+    "needs_to_manifest": meta.get("needs_to_manifest") or meta.get("needs"),
+    "files_changed": meta.get("files_changed") or meta.get("files"),
     "agent_meta": meta,
     "confirmed_by_me": {
         "how": "confirm_mut.sh in the scratch worktree: demo test with the patch, full suite (184 tests + 55 doc-tests) with the patch and the demo moved aside, demo without the patch",
